@@ -61,6 +61,8 @@ FAMILIES = {
     "atoms_power": {"base": "2018_JCP_149_064113/coulomb_atoms/power_bounded.ini", "n": (2, 10), "cost": 1},
     "atoms_power_many": {"base": "2018_JCP_149_064113/coulomb_atoms/power_bounded.ini", "n": (20, 40), "cost": 2,
                          "special": True},
+    "atoms_power_huge": {"base": "2018_JCP_149_064113/coulomb_atoms/power_bounded.ini", "n": (100, 130), "cost": 6,
+                         "special": True, "force_heap": True, "long": True},
     "atoms_cellb": {"base": "2018_JCP_149_064113/coulomb_atoms/cell_bounded.ini", "n": (2, 16), "cells": True,
                     "cost": 3},
     "atoms_cellv": {"base": "2018_JCP_149_064113/coulomb_atoms/cell_veto.ini", "n": (2, 16), "cells": True,
@@ -229,10 +231,14 @@ def generate(rng, family, package_dir, events=2000, vary=True, shipped_n=False):
         for _ in range(rng.randint(1, 3)):
             faults.append({"kind": rng.choice(["scheduler_pickle", "scheduler_pickle", "state_handler_pickle"]),
                            "at_step": rng.randrange(2, max(3, events // 2))})
+    if spec.get("force_heap"):
+        set_out.setdefault("SingleProcessMediator", {})["scheduler"] = "heap_scheduler"
     scn = {"base": base, "family": family, "set": set_out, "seed": rng.getrandbits(40), "max_events": events,
            "faults": faults, "expect_handler_shortage": shortage,
            "end_time": round(rng.choice([3.0, 10.0, 30.0, 100.0, 0.6, 7.05, 30.3, 12.1]) if vary else 50.0, 3),
            "n_roots": n}
+    if spec.get("long"):
+        scn["end_time"] = 100.0
     return scn
 
 
